@@ -286,7 +286,16 @@ class Driver(GenericAdapter):
         g("len", lambda: len(o))
         g("iter", lambda: [dec(x) for x in o])
         g("reversed", lambda: [dec(x) for x in reversed(o)])
-        g("getlist", lambda: [[dec(x) for x in o.getlist(K(a))] for a in range(self.U + 1)])
+        def own(lst):
+            """the caller owns what a read hands out: scribbling on it must not show in any later read"""
+            if isinstance(lst, list):
+                copy_ = list(lst)
+                lst.append(("scribbled", "on"))
+                lst.reverse()
+                return copy_
+            return lst
+        g("getlist", lambda: ([own(o.getlist(K(a))) for a in range(self.U + 1)],
+                              [[dec(x) for x in own(o.getlist(K(a)))] for a in range(self.U + 1)])[1])
 
         def get1(a):
             sentinel = object()
@@ -306,7 +315,13 @@ class Driver(GenericAdapter):
         g("get", lambda: [get1(a) for a in range(self.U + 1)])
         g("contains", lambda: [K(a) in o for a in range(self.U + 1)])
         g("todict_f", lambda: sorted(pl(o.todict().items())))
-        g("todict_t", lambda: sorted([dec(a), [dec(x) for x in b]] for a, b in o.todict(multi=True).items()))
+        g("todict_t", lambda: sorted([dec(a), [dec(x) for x in own(b)]] for a, b in o.todict(multi=True).items()))
+        for meth in ("keys", "values", "items"):
+            try:
+                own(getattr(o, meth)(multi=True))
+                own(getattr(o, meth)())
+            except Exception:
+                pass
         g("counts", lambda: pl(o.counts().items(multi=True)))
         raw = None
         try:
